@@ -39,7 +39,17 @@ def val_text(v, top=False):
         return '"' + v[1] + '"'
     if k == 'unit':
         return 'Unit'
-    if k == 'pair':
+    if k == 'bool':
+        return 'True' if v[1] else 'False'
+    if k == 'set':
+        return '{ ' + ' ; '.join(val_text(x, True) for x in v[2]) + ' }' if v[2] else '{}'
+    if k == 'map':
+        return '{ ' + ' ; '.join('Elt ' + val_text(a) + ' ' + val_text(b) for a, b in v[3]) + ' }' if v[3] else '{}'
+    if k == 'left':
+        s = 'Left ' + val_text(v[1])
+    elif k == 'right':
+        s = 'Right ' + val_text(v[2])
+    elif k == 'pair':
         s = 'Pair ' + val_text(v[1]) + ' ' + val_text(v[2])
     elif k == 'none':
         return 'None'
@@ -62,6 +72,22 @@ def val_tokens(v):
         return ['A' + v[1].encode().hex()]
     if k == 'unit':
         return ['U']
+    if k == 'bool':
+        return ['B1' if v[1] else 'B0']
+    if k == 'left':
+        return ['left'] + val_tokens(v[1]) + ty_tokens(v[2])
+    if k == 'right':
+        return ['right'] + ty_tokens(v[1]) + val_tokens(v[2])
+    if k == 'set':
+        out = [f'E{len(v[2])}'] + ty_tokens(v[1])
+        for x in v[2]:
+            out += val_tokens(x)
+        return out
+    if k == 'map':
+        out = [f'M{len(v[3])}', '0'] + ty_tokens(v[1]) + ty_tokens(v[2])
+        for a, b in v[3]:
+            out += val_tokens(a) + val_tokens(b)
+        return out + ['R0']
     if k == 'pair':
         return ['P'] + val_tokens(v[1]) + val_tokens(v[2])
     if k == 'none':
@@ -76,7 +102,7 @@ def val_tokens(v):
     raise ValueError(v)
 
 
-BLOCKS = {'IF_NONE': 2, 'ITER': 1, 'MAP': 1, 'DIP': 1}
+BLOCKS = {'IF_NONE': 2, 'IF_LEFT': 2, 'ITER': 1, 'MAP': 1, 'DIP': 1}
 
 
 def instr_text(i):
@@ -85,10 +111,12 @@ def instr_text(i):
         return seq_text(i[1])
     if p == 'PUSH':
         return f'PUSH {ty_text(i[1])} {val_text(i[2])}'
-    if p in ('NONE', 'NIL'):
+    if p in ('NONE', 'NIL', 'LEFT', 'RIGHT', 'EMPTY_SET'):
         return f'{p} {ty_text(i[1])}'
     if p in ('EMPTY_MAP', 'EMPTY_BIG_MAP'):
         return f'{p} {ty_text(i[1])} {ty_text(i[2])}'
+    if p == 'LAMBDA':
+        return f'LAMBDA {ty_text(i[1])} {ty_text(i[2])} {seq_text(i[3])}'
     if p in BLOCKS:
         return p + ''.join(' ' + seq_text(b) for b in i[1:])
     if p == 'DIPN':
@@ -110,10 +138,12 @@ def instr_tokens(i):
         return seq_tokens(i[1])
     if p == 'PUSH':
         return ['PUSH'] + ty_tokens(i[1]) + val_tokens(i[2])
-    if p in ('NONE', 'NIL'):
+    if p in ('NONE', 'NIL', 'LEFT', 'RIGHT', 'EMPTY_SET'):
         return [p] + ty_tokens(i[1])
     if p in ('EMPTY_MAP', 'EMPTY_BIG_MAP'):
         return [p] + ty_tokens(i[1]) + ty_tokens(i[2])
+    if p == 'LAMBDA':
+        return [p] + ty_tokens(i[1]) + ty_tokens(i[2]) + seq_tokens(i[3])
     if p in BLOCKS:
         out = [p]
         for b in i[1:]:
@@ -152,6 +182,8 @@ def prims(seq):
 
 # ---------------------------------------------------------------------------------------------- types
 def has_ticket(t):
+    if t[0] == 'lambda':
+        return False          # code: duplicable whatever its argument types are
     return t[0] == 'ticket' or any(has_ticket(a) for a in t[1:] if isinstance(a, tuple))
 
 
@@ -173,8 +205,30 @@ def rand_content(rng, t):
 
 
 def rand_plain_value(rng, t):
-    if t[0] in ('nat', 'string', 'unit') or (t[0] == 'pair'):
+    if t[0] == 'bool':
+        return ('bool', rng.random() < 0.5)
+    if t[0] == 'pair':
+        return ('pair', rand_plain_value(rng, t[1]), rand_plain_value(rng, t[2]))
+    if t[0] in ('nat', 'string', 'unit'):
         return rand_content(rng, t)
+    if t[0] == 'or':
+        return ('left', rand_plain_value(rng, t[1]), t[2]) if rng.random() < 0.5 else ('right', t[1], rand_plain_value(rng, t[2]))
+    if t[0] == 'set':
+        xs = sorted({rand_content(rng, t[1]) for _ in range(rng.choice([0, 1, 2, 3]))})
+        k = rng.random()
+        if len(xs) >= 2 and k < 0.15:
+            xs = xs[::-1]                   # unsorted literal: must be refused
+        elif xs and k < 0.25:
+            xs = xs + xs[-1:]               # duplicate element: must be refused
+        return ('set', t[1], xs)
+    if t[0] == 'map':
+        ks = sorted({rand_content(rng, t[1]) for _ in range(rng.choice([0, 1, 2, 3]))})
+        k = rng.random()
+        if len(ks) >= 2 and k < 0.15:
+            ks = ks[::-1]
+        elif ks and k < 0.25:
+            ks = ks + ks[-1:]
+        return ('map', t[1], t[2], [(a, rand_plain_value(rng, t[2])) for a in ks])
     if t[0] == 'option':
         return ('none', t[1]) if rng.random() < 0.4 else ('some', rand_plain_value(rng, t[1]))
     if t[0] == 'list':
@@ -184,7 +238,15 @@ def rand_plain_value(rng, t):
 
 FAIL = [('PUSH', ('string',), ('str', 'none')), ('FAILWITH',)]
 NOISE = [('TICKET',), ('READ_TICKET',), ('SPLIT_TICKET',), ('JOIN_TICKETS',), ('PAIR',), ('UNPAIR',), ('CAR',), ('CDR',), ('SOME',),
-         ('CONS',), ('DUP',), ('DUP',), ('DUP',), ('SWAP',), ('DROP',), ('GET',), ('GET_AND_UPDATE',), ('UPDATE',)]
+         ('CONS',), ('DUP',), ('DUP',), ('DUP',), ('SWAP',), ('DROP',), ('GET',), ('GET_AND_UPDATE',), ('UPDATE',), ('MEM',),
+         ('LEFT', ('nat',)), ('RIGHT', ('ticket', ('string',))), ('IF_LEFT', [], []), ('IF_LEFT', [('DROP',)], [('DROP',)]),
+         ('EMPTY_SET', ('nat',)), ('EMPTY_SET', ('ticket', ('nat',))), ('PUSH', ('bool',), ('bool', True)), ('EXEC',), ('APPLY',),
+         ('LAMBDA', ('nat',), ('nat',), []), ('LAMBDA', ('ticket', ('string',)), ('ticket', ('string',)), [])]
+PUSHABLE = [('nat',), ('string',), ('unit',), ('bool',), ('pair', ('nat',), ('nat',)), ('option', ('nat',)), ('list', ('nat',)),
+            ('list', ('pair', ('nat',), ('string',))), ('or', ('nat',), ('string',)), ('set', ('nat',)), ('set', ('string',)),
+            ('map', ('nat',), ('string',)), ('map', ('string',), ('pair', ('nat',), ('nat',))), ('option', ('map', ('nat',), ('nat',))),
+            ('pair', ('set', ('nat',)), ('or', ('unit',), ('nat',)))]
+OTHER_SIDE = [('nat',), ('string',), ('unit',), ('ticket', ('string',)), ('ticket', ('nat',)), ('pair', ('nat',), ('ticket', ('string',)))]
 
 
 class Gen:
@@ -221,11 +283,19 @@ class Gen:
                                     ('ITER', [('DROP',)]), ('MAP', [('DROP',)]), ('DIP', [('DROP',)]), ('ITER', []), ('MAP', [])])
             return [c], self.after_noise(c, S)
         top = S[0] if S else None
-        cands = ['MINT'] * (5 if sum(1 for t in S if has_ticket(plain(t))) < 2 else 1)
+        cands = ['MINT'] * (5 if sum(1 for t in S if has_ticket(plain(t))) < 2 else 1) + (['LAM_MINT'] if rng.random() < 0.3 else [])
         if len(S) < 6:
             cands += ['PUSH']
         if S:
-            cands += ['DROP', 'SOME', 'NILCONS', 'DUP', 'TO_MAP', 'TO_BIG_MAP']
+            cands += ['DROP', 'SOME', 'NILCONS', 'DUP', 'TO_MAP', 'TO_BIG_MAP', 'LEFT', 'RIGHT', 'WRAP']
+            if rng.random() < 0.3:
+                cands += ['LAM_EXEC', 'LAM_EXEC', 'LAM_APPLY']
+            if top[0] == 'lambda' and top[1] == ('nat',):
+                cands += ['EXEC_NAT'] * 4
+            if top[0] == 'or':
+                cands += ['IF_LEFT'] * 4
+            if top[0] == 'set':
+                cands += ['SET_UPD', 'SET_UPD', 'SET_MEM', 'ITER']
             if top[0] == 'ticket':
                 cands += ['READ', 'READ', 'SPLIT', 'SPLIT', 'SPLIT', 'SPLIT_BAD', 'JOIN_FRESH', 'JOIN_FRESH', 'JOIN_OTHER']
             if top[0] == 'pair':
@@ -239,7 +309,7 @@ class Gen:
                 if top[1][0] == 'ticket' and len(S) >= 2 and S[1][0] == 'ticket' and plain(S[1]) == plain(top[1]):
                     cands += ['ITER_JOIN'] * 4
             if top[0] in ('map', 'big_map'):
-                cands += ['MAP_GET', 'MAP_GAU', 'MAP_GAU', 'MAP_REMOVE', 'MAP_PUT', 'ITER', 'MAP']
+                cands += ['MAP_GET', 'MAP_GAU', 'MAP_GAU', 'MAP_REMOVE', 'MAP_PUT', 'ITER', 'MAP', 'MAP_MEM']
         if len(S) >= 2:
             cands += ['PAIR', 'PAIR', 'SWAP', 'DIG', 'DUG', 'DUPN', 'DIP']
             if S[1][0] == 'list' and plain(S[1][1]) == plain(S[0]):
@@ -248,9 +318,78 @@ class Gen:
         if c == 'MINT':
             return self.mint(S)
         if c == 'PUSH':
-            t = rng.choice([('nat',), ('string',), ('unit',), ('pair', ('nat',), ('nat',)), ('option', ('nat',)), ('list', ('nat',)),
-                            ('list', ('pair', ('nat',), ('string',)))])
-            return [('PUSH', t, rand_plain_value(rng, t))], [t] + S
+            t = rng.choice(PUSHABLE)
+            if rng.random() < 0.1:
+                return [('EMPTY_SET', ('nat',))], [('set', ('nat',))] + S
+            if rng.random() < 0.04:          # a literal of a type that holds tickets is never pushable, even when empty
+                t = rng.choice([('map', ('nat',), ('ticket', ('string',))), ('list', ('ticket', ('nat',))), ('option', ('ticket', ('nat',)))])
+                v = ('map', t[1], t[2], []) if t[0] == 'map' else ('list', t[1], []) if t[0] == 'list' else ('none', t[1])
+                return [('PUSH', t, v)], None
+            return [('PUSH', t, rand_plain_value(rng, t))], [t] + S          # (an unsorted / duplicated literal fails)
+        if c == 'LAM_MINT':
+            n = rng.choice([0, 1, 2, 5])
+            return [('LAMBDA', ('nat',), ('option', ('ticket', ('string',))), [('PUSH', ('string',), ('str', 'a')), ('TICKET',)]),
+                    ('PUSH', ('nat',), ('nat', n)), ('EXEC',)], [('option', ('ticket', ('string',), n if n else None))] + S
+        if c == 'LAM_EXEC':
+            T = plain(top)
+            bodies = [([], top), ([('SOME',)], ('option', top)), ([('DROP',), ('PUSH', ('nat',), ('nat', 1))], ('nat',)),
+                      ([('PUSH', ('nat',), ('nat', 1)), ('PAIR',)], ('pair', ('nat',), top))]
+            if top[0] == 'ticket':
+                bodies += [([('READ_TICKET',), ('DROP',)], top), ([('DUP',), ('PAIR',)], None), ([('READ_TICKET',), ('CDR',), ('CDR',)], None),
+                           ([('PUSH', ('pair', ('nat',), ('nat',)), ('pair', ('nat', 1), ('nat', 1))), ('SWAP',), ('SPLIT_TICKET',)],
+                            ('option', ('pair', ('ticket', top[1], None), ('ticket', top[1], None))))]
+            else:
+                bodies += [([('DUP',), ('PAIR',)], None if has_ticket(T) else ('pair', top, top))]
+            body, U = rng.choice(bodies)
+            Ut = plain(U) if U is not None else ('pair', T, T) if body[:1] == [('DUP',)] else ('nat',)
+            pre = [('LAMBDA', T, Ut, body)] + rng.choice([[], [], [('DUP',), ('DROP',)], [('DUP',), ('DIP', [('DROP',)])]])
+            return pre + [('SWAP',), ('EXEC',)], (None if U is None else [forget(U)] + S[1:])
+        if c == 'LAM_APPLY':
+            # the top value is captured into the code of a lambda: for good when it holds a ticket (the PUSH that re-creates it is refused)
+            T = plain(top)
+            ins = [('LAMBDA', ('pair', T, ('nat',)), T, [('CAR',)]), ('SWAP',), ('APPLY',)]
+            return ins, [('lambda', ('nat',), T)] + S[1:]
+        if c == 'EXEC_NAT':
+            k = rng.randrange(3)
+            pre = [[], [('DUP',), ('PUSH', ('nat',), ('nat', 2)), ('EXEC',), ('DROP',)], [('DUP',), ('DROP',)]][k]
+            if has_ticket(plain(top[2])):
+                return pre + [('PUSH', ('nat',), ('nat', 1)), ('EXEC',)], None           # refused: a ticket type is not pushable
+            return pre + [('PUSH', ('nat',), ('nat', 1)), ('EXEC',)], [top[2]] + S[1:]
+        if c == 'LEFT':
+            t = rng.choice(OTHER_SIDE)
+            return [('LEFT', t)], [('or', top, t)] + S[1:]
+        if c == 'RIGHT':
+            t = rng.choice(OTHER_SIDE)
+            return [('RIGHT', t)], [('or', t, top)] + S[1:]
+        if c == 'WRAP':
+            # tickets at the second / third type-argument position of containers
+            k = rng.randrange(4)
+            if k == 0:
+                return [('PUSH', ('nat',), ('nat', 7)), ('PAIR',)], [('pair', ('nat',), top)] + S[1:]
+            if k == 1:
+                return [('PUSH', ('nat',), ('nat', 7)), ('PAIR',), ('SOME',)], [('option', ('pair', ('nat',), top))] + S[1:]
+            if k == 2:
+                return [('PUSH', ('string',), ('str', 'x')), ('PUSH', ('nat',), ('nat', 7)), ('PAIR',), ('PAIR',)], \
+                    [('pair', ('pair', ('nat',), ('string',)), top)] + S[1:]
+            return [('RIGHT', ('nat',)), ('NIL', ('or', ('nat',), plain(top))), ('SWAP',), ('CONS',)], [('list', ('or', ('nat',), top))] + S[1:]
+        if c == 'IF_LEFT':
+            l, r = top[1], top[2]
+            k = rng.randrange(4)
+            if k == 0:
+                return [('IF_LEFT', [('DROP',)], [('DROP',)])], S[1:]
+            if k == 1:
+                return [('IF_LEFT', list(FAIL), [])], [r] + S[1:]
+            if k == 2:
+                return [('IF_LEFT', [], list(FAIL))], [l] + S[1:]
+            if plain(l) == plain(r):
+                return [('IF_LEFT', [], [])], [forget(l)] + S[1:]
+            return [('IF_LEFT', [('SOME',)], [('DROP',), ('NONE', plain(l))])], [('option', forget(l))] + S[1:]
+        if c == 'SET_UPD':
+            return [('PUSH', ('bool',), ('bool', rng.random() < 0.7)), ('PUSH', top[1], rand_content(rng, top[1])), ('UPDATE',)], S
+        if c == 'SET_MEM':
+            return [('PUSH', top[1], rand_content(rng, top[1])), ('MEM',)], [('bool',)] + S[1:]
+        if c == 'MAP_MEM':
+            return [('PUSH', top[1], rand_content(rng, top[1])), ('MEM',)], [('bool',)] + S[1:]
         if c == 'DROP':
             return [('DROP',)], S[1:]
         if c == 'SOME':
@@ -330,6 +469,8 @@ class Gen:
             body, R = self.seq(S[1:], rng.choice([1, 2]), depth + 1)
             return [('IF_NONE', body, [('DROP',)] + body)], R
         if c == 'ITER':
+            if top[0] == 'set':
+                return [('ITER', [('DROP',)])], S[1:]
             if top[0] == 'list':
                 if len(S) >= 2 and S[1] == ('list', top[1]) or (len(S) >= 2 and S[1][0] == 'list' and plain(S[1][1]) == plain(top[1])):
                     return [('ITER', [('CONS',)])], S[1:]
@@ -445,4 +586,42 @@ CORPUS = [
     [(A, _mint(2) + _mint(3) + [('NIL', _T), ('SWAP',), ('CONS',), ('ITER', [('PAIR',), ('JOIN_TICKETS',), ('IF_NONE', list(FAIL), [])])])],
     [(A, _mint(5) + _TO_MAP + [('MAP', [('CDR',), ('READ_TICKET',), ('DROP',)]), ('ITER', [('CDR',), ('DROP',)])])],
     [(A, _mint(5) + [('PUSH', ('nat',), ('nat', 9)), ('PAIR',), ('ITER', [('DROP',)])])],
+    # or-types: a ticket on either side makes the sum non-duplicable; IF_LEFT hands the ticket back
+    [(A, _mint(5) + [('LEFT', ('nat',)), ('DUP',)])],
+    [(A, _mint(5) + [('RIGHT', ('nat',)), ('DUP',)])],
+    [(A, [('PUSH', ('nat',), ('nat', 1)), ('LEFT', _T), ('DUP',)])],
+    [(A, _mint(5) + [('RIGHT', ('nat',)), ('IF_LEFT', list(FAIL), []), ('READ_TICKET',)])],
+    [(A, _mint(5) + [('LEFT', _T), ('IF_LEFT', [], []), ('READ_TICKET',)])],
+    [(A, _mint(5) + [('PUSH', ('nat',), ('nat', 7)), ('PAIR',), ('SOME',), ('DUP',)])],
+    [(A, _mint(5) + [('PUSH', ('nat',), ('nat', 7)), ('PAIR',), ('SOME',), ('IF_NONE', list(FAIL), []), ('CDR',), ('READ_TICKET',)])],
+    [(A, _mint(5) + _TO_MAP + [('PUSH', ('nat',), ('nat', 7)), ('PAIR',), ('DUP',)])],
+    [(A, _mint(5) + _TO_MAP + [('PUSH', ('nat',), ('nat', 7)), ('PAIR',), ('CDR',), ('PUSH', ('nat',), ('nat', 1)), ('MEM',)])],
+    # lambdas: code is duplicable; a lambda can take / return / mint tickets but never copy one; APPLY on a ticket loses it for good
+    [(A, [('LAMBDA', _T, _T, []), ('DUP',)])],
+    [(A, _mint(5) + [('LAMBDA', _T, _T, []), ('SWAP',), ('EXEC',), ('READ_TICKET',)])],
+    [(A, _mint(5) + [('LAMBDA', _T, ('pair', _T, _T), [('DUP',), ('PAIR',)]), ('SWAP',), ('EXEC',)])],
+    [(A, _mint(5) + [('LAMBDA', _T, ('nat',), [('DROP',), ('PUSH', ('nat',), ('nat', 1))]), ('SWAP',), ('EXEC',)])],
+    [(A, _mint(5) + [('LAMBDA', _T, ('nat',), [('READ_TICKET',), ('CDR',), ('CDR',)]), ('SWAP',), ('EXEC',)])],
+    [(A, _mint(5) + [('LAMBDA', ('nat',), ('nat',), []), ('SWAP',), ('EXEC',)])],
+    [(A, _mint(5) + [('LAMBDA', ('pair', _T, ('nat',)), _T, [('CAR',)]), ('SWAP',), ('APPLY',), ('DUP',), ('PUSH', ('nat',), ('nat', 1)), ('EXEC',)])],
+    [(A, _mint(5) + [('LAMBDA', ('pair', _T, ('nat',)), _T, [('CAR',)]), ('SWAP',), ('APPLY',), ('DUP',)])],
+    [(A, [('PUSH', ('nat',), ('nat', 7)), ('LAMBDA', ('pair', ('nat',), ('nat',)), ('nat',), [('CAR',)]), ('SWAP',), ('APPLY',), ('DUP',),
+          ('PUSH', ('nat',), ('nat', 1)), ('EXEC',), ('SWAP',), ('PUSH', ('nat',), ('nat', 2)), ('EXEC',)])],
+    [(A, [('LAMBDA', ('nat',), ('option', _T), [('PUSH', ('string',), ('str', 'a')), ('TICKET',)]), ('DUP',), ('PUSH', ('nat',), ('nat', 4)), ('EXEC',),
+          ('SWAP',), ('PUSH', ('nat',), ('nat', 0)), ('EXEC',)])],
+    [(A, [('LAMBDA', ('nat',), ('nat',), [('DROP',)]), ('PUSH', ('nat',), ('nat', 4)), ('EXEC',)])],
+    [(A, [('LAMBDA', ('nat',), ('nat',), [('PUSH', ('nat',), ('nat', 1))]), ('PUSH', ('nat',), ('nat', 4)), ('EXEC',)])],
+    [(A, _mint(5) + [('LAMBDA', _T, ('option', _T), [('SOME',)]), ('SOME',), ('DUP',)])],
+    # sets and map literals (ticket-free), next to tickets
+    [(A, _mint(5) + [('EMPTY_SET', ('nat',)), ('PUSH', ('bool',), ('bool', True)), ('PUSH', ('nat',), ('nat', 3)), ('UPDATE',),
+                     ('PUSH', ('bool',), ('bool', True)), ('PUSH', ('nat',), ('nat', 1)), ('UPDATE',), ('DUP',), ('PUSH', ('nat',), ('nat', 3)), ('MEM',)])],
+    [(A, [('EMPTY_SET', _T)])],
+    [(A, [('PUSH', ('set', ('nat',)), ('set', ('nat',), [('nat', 2), ('nat', 1)]))])],
+    [(A, [('PUSH', ('set', ('nat',)), ('set', ('nat',), [('nat', 1), ('nat', 2)])), ('ITER', [('DROP',)])])],
+    [(A, [('PUSH', ('map', ('nat',), ('string',)), ('map', ('nat',), ('string',), [(('nat', 1), ('str', 'a')), (('nat', 2), ('str', 'b'))])),
+          ('DUP',), ('PUSH', ('nat',), ('nat', 2)), ('GET',)])],
+    [(A, [('PUSH', ('map', ('nat',), ('string',)), ('map', ('nat',), ('string',), [(('nat', 2), ('str', 'a')), (('nat', 1), ('str', 'b'))]))])],
+    [(A, [('PUSH', ('map', ('nat',), ('string',)), ('map', ('nat',), ('string',), [(('nat', 1), ('str', 'a')), (('nat', 1), ('str', 'b'))]))])],
+    [(A, [('PUSH', ('map', ('nat',), _T), ('map', ('nat',), _T, []))])],
+    [(A, _mint(5) + [('PUSH', ('map', ('nat',), ('string',)), ('map', ('nat',), ('string',), [(('nat', 1), ('str', 'a'))])), ('PAIR',), ('DUP',)])],
 ]
